@@ -66,12 +66,26 @@ def check_module(name, repo, workdir):
     return out
 
 
+def expand(modules):
+    """modules plus the modules their generated files import, dependencies first"""
+    out = []
+
+    def add(m):
+        for d in getattr(schemas, 'DEPENDS', {}).get(m, []):
+            add(d)
+        if m not in out:
+            out.append(m)
+    for m in modules:
+        add(m)
+    return out
+
+
 def obligations(modules, repo=None):
     repo = repo or os.environ.get('VAKT_REPO', '/repo')
     work = tempfile.mkdtemp(prefix='py2v-', dir=os.path.join(VERIF, '.work') if os.path.isdir(os.path.join(VERIF, '.work')) else None)
     try:
         res = []
-        for m in modules:
+        for m in expand(modules):
             res += check_module(m, repo, work)
         broken = ['%s: %s' % (n, msg) for n, ok, msg in res if not ok]
         return len(res), sum(1 for _, ok, _ in res if ok), broken
@@ -96,7 +110,7 @@ def main(argv):
     if keep:
         os.makedirs(keep, exist_ok=True)
         rc = 0
-        for m in mods:
+        for m in expand(mods):
             for n, ok, msg in check_module(m, repo, keep):
                 print('%-60s %s' % (n, 'ok' if ok else 'BROKEN'))
                 if not ok:
